@@ -87,7 +87,7 @@ def regenerate():
     tr = os.path.join(VERIF, 'harness', 'translate.py')
     if not os.path.exists(tr):
         return True, ''
-    env = dict(os.environ, PYTHONPATH='/repo', PYTHONHASHSEED='0')
+    env = dict(os.environ, PYTHONPATH=os.environ.get('VERIF_REPO', '/repo'), PYTHONHASHSEED='0')
     rc, out = sh('/venv/bin/python %s' % tr, cwd=VERIF, env=env, timeout=300)
     return rc == 0, out
 
